@@ -1,6 +1,7 @@
 # C17 - block I/O layer: coherent, durable on flush, race-free bitmap loading
 import json, os, subprocess, hashlib
 import e2v
+from extfmt import Fs
 
 WORK = os.path.join(e2v.SCRATCH, "c17")
 
@@ -112,6 +113,7 @@ def nontrivial(ops):
 
 
 def setup(src):
+    e2v.ensure_build("tsan")
     e2v.build_harness("h_io", src)
     e2v.build_driver("iocache", ["theories/IoCache/IoModel.vo"], ["iocache_model"])
 
@@ -150,6 +152,8 @@ THREAD_CONFIGS = [
     (["-t", "ext4", "-b", "4096", "-G", "2"], "300M"),
     (["-t", "ext4", "-b", "1024", "-g", "256", "-O", "^metadata_csum,uninit_bg", "-G", "8", "-N", "256"], "6M"),
     (["-t", "ext4", "-b", "1024", "-g", "256", "-G", "1", "-N", "128"], "1300K"),    # 5 groups
+    # 64 groups whose bitmap blocks all have a damaged tail (padding bits clear): every loader thread has something to report
+    (["-t", "ext2", "-b", "1024", "-g", "256", "-O", "^flex_bg,^resize_inode", "-N", "512"], "16M"),
 ]
 THREADS = ["1", "2", "3", "4", "5", "7", "8", "16", "33", "64", "0", "-1"]
 
@@ -170,6 +174,13 @@ def thread_check(src, tier, seed):
         r = e2v.rng(seed, "c17thr", k)
         cmds = ["mkdir d%d" % i for i in range(r.randint(2, 12))] + ["write /etc/services f%d" % i for i in range(r.randint(3, 30))]
         e2v.sh([os.path.join(src, "debugfs/debugfs"), "-w", "-f", "-", img], input=("\n".join(cmds) + "\n").encode(), env=env, timeout=300)
+        if k == len(THREAD_CONFIGS) - 1:
+            fsx = Fs(img)
+            with open(img, "r+b") as f:
+                for gd in fsx.groups:
+                    for blk in (gd["block_bitmap"], gd["inode_bitmap"]):
+                        f.seek(blk * fsx.bs + fsx.bs - 1)
+                        f.write(b"\x7f")
         imgs.append((k, opts, img))
         p = subprocess.run([hb, img] + THREADS, stdout=subprocess.PIPE, stderr=subprocess.STDOUT, timeout=600)
         lines = [l.split() for l in p.stdout.decode().split("\n") if l.strip()]
@@ -182,10 +193,11 @@ def thread_check(src, tier, seed):
             if l[1:] != ref[0][1:]:
                 bad.append({"mke2fs": opts, "threads": l[0], "single_threaded": ref[0][1:], "observed": l[1:]})
                 break
-    if tier == "thorough":
+    if True:
+        # ThreadSanitizer build of the tree: all images in the thorough tier, the two with most threads at work in the quick one
         ts = e2v.ensure_build("tsan")
         ht = e2v.build_harness("h_bmload", ts, variant="tsan")
-        for k, opts, img in imgs:
+        for k, opts, img in (imgs if tier == "thorough" else [x for x in imgs if x[0] in (0, len(THREAD_CONFIGS) - 1)]):
             p = subprocess.run([ht, img] + THREADS, stdout=subprocess.PIPE, stderr=subprocess.STDOUT, timeout=900,
                                env=dict(os.environ, TSAN_OPTIONS="halt_on_error=0"))
             runs += len(THREADS)
@@ -211,7 +223,7 @@ def run(res, replay=None):
         "thread interleavings of ext2fs_rw_bitmaps are represented by the proved partition of group ranges; data-race freedom of the C code is not proved",
     ]
     res.cov["partial"] = ["bounce-buffer (O_DIRECT) path, undo-wrapped and test_io channels, discard, readahead: not modelled",
-                          "threaded bitmap loading: the partition arithmetic is proved; every thread count is compared with single-threaded loading on 7 geometries; ThreadSanitizer runs in the thorough tier only"]
+                          "threaded bitmap loading: the partition arithmetic is proved; every thread count is compared with single-threaded loading on 8 geometries (one with a damaged tail in every bitmap block); under ThreadSanitizer on 2 of them in the quick tier, on all in the thorough tier"]
     if replay:
         rp = json.load(open(replay))
         cases = [(tuple(rp["geom"]), rp["ops"])]
